@@ -3,4 +3,19 @@ EXTENDS Replication, Json
 Perms == Permutations(Nodes)
 \* fault schedules (Write / Kill leader|follower / Restart / Flush / Query) for the real cluster
 Export == (Len(hist) = MaxHist) => PrintT(<<"TRACE", ToJson(hist)>>)
+\* DIRECTED schedule families. Run with Gen = TRUE; TLC's counterexample of ShortOutageReadAnyReplica (a member that was away for
+\* less than TolerateTime, is back and caught up, answers without acknowledged writes) is exported as fault schedule:
+\*   "timer"    Dev = as implemented + "outage_timer_not_reset", outages separated by a healthy tick (PatientHealthy)
+\*   "rolling"  Dev = as implemented ({"truncate_past_down_member", "outage_timer_per_group"}): F-C05-2
+\* directed schedules are driven patiently (a restarted store settles before the next fault): a store is killed only when every
+\* running store holds and has applied the leader's log
+Quiet == \A l, n \in Nodes : (up[l] /\ role[l] = "L" /\ up[n]) => (log[n] = log[l] /\ durable[n] = Len(log[n]) /\ shAp[n] = Len(log[n]))
+Patient == (crashes' > crashes) => Quiet
+\* family "timer": the outages are separated by a tick that saw everybody present (hist is recorded: Gen = TRUE)
+Ticks == SelectSeq(hist, LAMBDA e : e.a = "Tick")
+HealthyBetween == (crashes' > crashes /\ crashes >= 1) => (Len(Ticks) > 0 /\ Ticks[Len(Ticks)].r = "healthy")
+PatientHealthy == Patient /\ HealthyBetween
+viewT == <<view, Ticks>>          \* HealthyBetween reads the tick observations: they belong to the state
+ExportTimer == ShortOutageReadAnyReplica \/ (PrintT(<<"TRACE", ToJson(hist)>>) /\ FALSE)
+ExportLongDown == ReadAnyReplica \/ (PrintT(<<"TRACE", ToJson(hist)>>) /\ FALSE)
 =============================================================================
